@@ -357,6 +357,72 @@ fn run_matrix(sim: &Sim, idx: u64) {
 }
 
 /// `https` endpoint with no TLS configuration: an error, and not a single byte on the wire.
+/// A server whose client-CA material contains no usable certificate (empty file, the wrong file,
+/// garbage): no client can possibly present "a certificate issued by it", so either the
+/// configuration is refused or every client is; an unauthenticated client is never served.
+fn run_unusable_client_ca(sim: &Sim, idx: u64) {
+    const PEMS: [(&str, &str); 5] = [
+        ("empty", ""),
+        ("not-pem", "this is not a PEM file\n"),
+        ("only-a-private-key", SERVER_KEY),
+        ("certificate-block-with-garbage-der", "-----BEGIN CERTIFICATE-----\nAAAA\n-----END CERTIFICATE-----\n"),
+        ("whitespace", "\n\n  \n"),
+    ];
+    let (pem_name, pem) = PEMS[(idx % 5) as usize];
+    let optional = (idx / 5) % 2 == 1;
+    let ident = [Ident::NoIdent, Ident::Valid, Ident::OtherCa][((idx / 10) % 3) as usize];
+    let netcfg = NetCfg { capture: false, trace_bytes: false, stall_pct: sim.pick(&[0u64, 10]), max_stall_us: 200, ..NetCfg::draw(sim) };
+    sim.nontrivial();
+    sim.sample(|| format!("client CA = {pem_name}, client_auth_optional={optional}, client identity {ident:?}"));
+    sim.ev(|| format!("config: client CA = {pem_name}, optional={optional}, identity {ident:?}"));
+    let rt = simnet::runtime(sim, sim.content_seed());
+    let res = rt.block_on(async {
+        tokio::time::timeout(Duration::from_secs(600), async {
+            let net = SimNet::new(sim, netcfg);
+            let (connector, rx) = SimConnector::new(&net, vec![]);
+            let seen = Seen::default();
+            let tls = ServerTlsConfig::new().identity(Identity::from_pem(SERVER_PEM, SERVER_KEY)).client_ca_root(Certificate::from_pem(pem)).client_auth_optional(optional);
+            let mut builder = match Server::builder().tls_config(tls) {
+                Ok(b) => b,
+                Err(_) => return None, // the configuration is refused: nothing can be served
+            };
+            let router = builder.add_service(HealthServer::new(CountingHealth(seen.clone())));
+            let incoming = tokio_stream::wrappers::UnboundedReceiverStream::new(rx).map(Ok::<_, std::io::Error>);
+            tokio::spawn(async move {
+                let _ = router.serve_with_incoming(incoming).await;
+            });
+            let mut tls = ClientTlsConfig::new().ca_certificate(Certificate::from_pem(CA_A)).domain_name("sim.test");
+            match ident {
+                Ident::NoIdent => {}
+                Ident::Valid => tls = tls.identity(Identity::from_pem(CLIENT_OK_PEM, CLIENT_OK_KEY)),
+                Ident::OtherCa => tls = tls.identity(Identity::from_pem(CLIENT_OTHER_PEM, CLIENT_OTHER_KEY)),
+            }
+            let ep = Endpoint::from_static("https://sim.test:443").tls_config(tls).expect("harness: client tls config");
+            let ch = ep.connect_with_connector_lazy(connector.clone());
+            let mut client = HealthClient::new(ch);
+            let outcome = client.check(tonic::Request::new(HealthCheckRequest { service: CANARY.to_string() })).await.map(|_| ()).map_err(|e| format!("{:?} {}", e.code(), e.message()));
+            tokio::time::sleep(Duration::from_millis(50)).await;
+            Some((outcome, seen.requests.load(Ordering::SeqCst)))
+        })
+        .await
+    });
+    sim.freeze();
+    drop(rt);
+    match res {
+        Err(_) => v(sim, "call-hangs", format!("client CA = {pem_name}: no outcome within 600 virtual seconds")),
+        Ok(None) => sim.probe("unusable-client-ca-refused-at-configuration"),
+        Ok(Some((outcome, n_req))) => {
+            sim.probe("unusable-client-ca-accepted-at-configuration");
+            // with client authentication *required* nobody can be served; with it optional an
+            // anonymous client may be (that is what optional means), one with a certificate the
+            // (empty) CA did not issue is left open by the property
+            if !optional && (outcome.is_ok() || n_req > 0) {
+                v(sim, "client-served-although-client-ca-has-no-certificates", format!("client CA = {pem_name}, client identity {ident:?}: outcome {outcome:?}, {n_req} requests reached the handler"));
+            }
+        }
+    }
+}
+
 fn run_https_without_tls(sim: &Sim, _idx: u64) {
     let netcfg = NetCfg { capture: true, trace_bytes: false, ..NetCfg::ideal() };
     sim.nontrivial();
@@ -421,6 +487,7 @@ fn main() {
         title: "TLS channels and servers authenticate the peer and insist on HTTP/2",
         scenarios: vec![
             Scenario { name: "N-tls-matrix", engine: "N", run: run_matrix, quick: GRID * 8, thorough: GRID * 400, grid: GRID, what: "full matrix client roots x domain x server ALPN x assume_http2 x server client-auth x client identity (486 cells, enumerated completely, then again under further network schedules): tonic ClientTlsConfig against tonic ServerTlsConfig (ALPN h2) or against the harness's own rustls acceptor + raw h2 server (ALPN absent / http/1.1)" },
+            Scenario { name: "N-unusable-client-ca", engine: "N", run: run_unusable_client_ca, quick: 120, thorough: 6_000, grid: 30, what: "server configured with client-CA material that contains no usable certificate (empty / not PEM / a private key / garbage DER / whitespace) x auth required/optional x client identity none/valid/other CA, all 30 cells enumerated first: either tls_config() refuses it or no client is served when authentication is required" },
             Scenario { name: "N-https-without-tls", engine: "N", run: run_https_without_tls, quick: 400, thorough: 10_000, grid: 0, what: "https endpoint without any TLS configuration in front of a plaintext h2 server that would answer" },
         ],
         rule: "one run = one cell of the configuration matrix x network fragmentation/stall schedule x lazy/eager connect; every run non-trivial; distinct = distinct hash of structural tape decisions and ordered network-event kinds; the first 486 runs enumerate the matrix completely",
